@@ -3,11 +3,13 @@ import Driver.C01
 import Driver.C02
 import Driver.C12Mon
 import Driver.Flow
+import Driver.C03
 open Kv
 
 structure DState where
   c04 : Drv.Flow.FullSt := {}
   c07 : Drv.Flow.FullSt := {}
+  c03 : Drv.C03.FullSt := {}
   deriving Inhabited
 
 /-- full driver: regenerated model + monitor -/
@@ -18,6 +20,7 @@ def dispatch (st : DState) (prop : String) (l : Line) : DState × String :=
   | "C12" => (st, Drv.C12.step l)
   | "C04" => let (s, r) := Drv.Flow.step "C04" st.c04 l; ({ st with c04 := s }, r)
   | "C07" => let (s, r) := Drv.Flow.step "C07" st.c07 l; ({ st with c07 := s }, r)
+  | "C03" => let (s, r) := Drv.C03.step st.c03 l; ({ st with c03 := s }, r)
   | _ => (st, "bad-op")
 
 def main : IO Unit := driverMain dispatch {}
